@@ -27,7 +27,9 @@ def sigOf (G : Grammar) (n : String) : Option (String × Nat) := (G.lookup n).ma
     silent (except `EOI`) and never atomic / non-atomic; `ANY`'s body is `_Any`; a Unicode property
     rule carries its own name.  References: never to `ANY` / `SKIP` by name; an untagged reference
     to a silent rule is a reference to a rule that does not switch atomicity (so not to a silent
-    `WHITESPACE` / `COMMENT`).  A `Choice` has at least one alternative. -/
+    `WHITESPACE` / `COMMENT`).  A `Choice` has at least one alternative.  A range is not reversed
+    (`Range.__init__` compiles `[a-b]`, which raises for `a > b`).  An `OptimizedChoice` (only the
+    optimizer makes them) is not empty and not the repeating kind (that one is the body of `SKIP`). -/
 def NodeOK (sg : String → Option (String × Nat)) : Expr → Prop
   | .rule n m sm b =>
     sm = true ∧ hasBit m ATOMIC = false ∧ hasBit m COMPOUND = false ∧ hasBit m NONATOMIC = false ∧
@@ -37,6 +39,8 @@ def NodeOK (sg : String → Option (String × Nat)) : Expr → Prop
     n ≠ "ANY" ∧ n ≠ "SKIP" ∧
     (t = none → ∀ nm md, sg n = some (nm, md) → hasBit md SILENT = true → ∀ a, ruleAtomic nm md a = a)
   | .choice es => es ≠ []
+  | .range a b => a ≤ b
+  | .optChoice alts star => star = false ∧ alts ≠ [] ∧ ∀ a ∈ alts, AltOK a
   | _ => True
 
 theorem AllNL.replicate {P : Expr → Prop} {e : Expr} (h : AllN P e) : ∀ n, AllNL P (List.replicate n e)
@@ -56,7 +60,7 @@ variable {F : Feat} {G : Grammar} {sg : String → Option (String × Nat)}
 
 /-- rewriting preserves node well-formedness -/
 theorem TR.allN {a : Bool} {e e' : Expr} (h : TR F G a e e')
-    (hG : ∀ n r, G.lookup n = some r → AllN (NodeOK sg) r.body) :
+    (hG : ∀ n r, n ≠ "SKIP" → G.lookup n = some r → AllN (NodeOK sg) r.body) :
     AllN (NodeOK sg) e → AllN (NodeOK sg) e' := by
   induction h with
   | term _ => exact id
@@ -112,8 +116,11 @@ theorem TR.allN {a : Bool} {e e' : Expr} (h : TR F G a e e')
     exact ⟨trivial, AllNL.append (AllNL.replicate this _)
       (AllNL.replicate (show AllN (NodeOK sg) (.opt _) from ⟨trivial, this⟩) _)⟩
   | inlB _ _ _ ih => intro h; simp only [AllN] at h; exact ih h.2
-  | inlS hl _ _ _ ih => intro _; exact ih (hG _ _ hl)
-  | squash _ _ _ _ _ => intro _; trivial
+  | inlS hl _ _ _ ih => intro h; exact ih (hG _ _ h.2.1 hl)
+  | squash _ _ _ hpat _ =>
+    intro _
+    obtain ⟨k, hk, hne, _, hall⟩ := hpat
+    exact ⟨rfl, hne, squash_altOK k _ [] _ hk hall (fun a ha => by simp at ha)⟩
   | skip _ _ => intro _; trivial
 
 /-- rewriting keeps a body that cannot fail a body that cannot fail -/
@@ -305,7 +312,8 @@ def NotPOK (G : Grammar) : Expr → Prop
 
 structure Inv (F : Feat) (sg : String → Option (String × Nat)) (G : Grammar) : Prop where
   sig : ∀ n, sigOf G n = sg n
-  nodes : ∀ r ∈ G.rules, AllN (NodeOK sg) r.body
+  /-- every body is well-formed; the fused rule of the WHITESPACE case is the one exception -/
+  nodes : ∀ r ∈ G.rules, AllN (NodeOK sg) r.body ∨ (r.name = "SKIP" ∧ ∃ alts, r.body = .optChoice alts true)
   /-- a rule called `SKIP` is the fused trivia rule -/
   skipMod : ∀ r ∈ G.rules, r.name = "SKIP" → hasBit r.mod ATOMIC = true
   /-- the fused trivia rule exists only where a trivia rule is defined -/
@@ -317,8 +325,15 @@ structure Inv (F : Feat) (sg : String → Option (String × Nat)) (G : Grammar) 
 theorem lookup_mem {G : Grammar} {n : String} {r : Rule} (h : G.lookup n = some r) : r ∈ G.rules :=
   List.mem_of_find?_eq_some h
 
-theorem Inv.lookup_nodes (h : Inv F sg G) (n : String) (r : Rule) (hl : G.lookup n = some r) :
-    AllN (NodeOK sg) r.body := h.nodes r (lookup_mem hl)
+theorem lookup_name {G : Grammar} {n : String} {r : Rule} (h : G.lookup n = some r) : r.name = n := by
+  have := List.find?_some h
+  simpa using this
+
+theorem Inv.lookup_nodes (h : Inv F sg G) (n : String) (r : Rule) (hn : n ≠ "SKIP") (hl : G.lookup n = some r) :
+    AllN (NodeOK sg) r.body := by
+  rcases h.nodes r (lookup_mem hl) with h1 | ⟨h1, _⟩
+  · exact h1
+  · rw [lookup_name hl] at h1; exact absurd h1 hn
 
 /-! ### unroll -/
 
